@@ -198,3 +198,31 @@ def x07(ctx):
     rnd = ctx.path("cases-b.ndjson")
     vlib.harness(["gen", "textfn", ctx.seed, 4000 if q else 40000, rnd])
     vlib.exec_and_judge(ctx, "textfn", rnd, "Trace_Words", "B", sample_keys=keys)
+
+
+@ext("X08", "norm", "Trace_Norm", "Unicode normalisation (unicode::normalize, Normalize preprocessing) and the JsonDecode preprocessing")
+def x08(ctx):
+    q = ctx.quick()
+    ml = 3 if q else 4
+    ctx.rule = ("MC: the algebra of the four normal forms over every closed text up to 3/4 code points of a 14-slot alphabet (letters, "
+                "their precomposed forms, two combining marks of different classes, a ligature, the spacing accent, CR, LF): each form is "
+                "idempotent, composing a decomposed form gives the composed form and vice versa, decomposed forms hold no composite, "
+                "composed forms no composable pair, marks are in canonical order, normalising cluster by cluster equals normalising "
+                "the text; A: every such text x 4 schemes x both modes through the real normalize (twice) and the Normalize "
+                "preprocessing (the other part untouched), and every JSON string literal of up to %d pieces (plain, multi-byte, five "
+                "escapes, \\u escape, raw line feed, bad escape, stray quote) x opening / closing quote x trailing garbage x part "
+                "through the JsonDecode preprocessing; B: random. non-trivial = the normal form differs from the text / a non-empty "
+                "decoded string" % (ml - 1))
+    ctx.assumptions = ["the decompositions, combining classes and composites of the 14 code points are written into Norm.tla (Unicode data)",
+                       "texts with a cedilla behind e / a / i are outside the closed alphabet (their composites are not slots) and skipped"]
+    vlib.mc(ctx, "MC_Norm", "CONSTANTS MaxLen = %d\nSPECIFICATION Spec\nINVARIANTS Idempotent Lattice NoComposites NoComposable Ordered "
+            "ClusterWise SameLetters\nCHECK_DEADLOCK FALSE\n" % (3 if q else 4), name="MC_Norm", workers=8)
+    gcfg = "CONSTANTS MaxLen = %d\nINIT Init\nNEXT Next\nCHECK_DEADLOCK FALSE\n" % ml
+    keys = ["kind", "t", "scheme", "g", "out", "lit", "part", "res"]
+    for fam in ("norm", "json"):
+        cases, n = vlib.tlc_generate(ctx, "Gen_Norm", gcfg, "cases-a-%s.ndjson" % fam, env={"FAMILY": fam})
+        vlib.exec_and_judge(ctx, "norm", cases, "Trace_Norm", "A-" + fam, sample_keys=keys)
+    ctx.exhaustive = True
+    rnd = ctx.path("cases-b.ndjson")
+    vlib.harness(["gen", "norm", ctx.seed, 4000 if q else 40000, rnd])
+    vlib.exec_and_judge(ctx, "norm", rnd, "Trace_Norm", "B", sample_keys=keys)
